@@ -307,6 +307,24 @@ impl Ctx {
         }
     }
 
+    /// Files a violation *before* it is shrunk and writes the worker's measurements out at once, so that a
+    /// crash of the code under test during shrinking (re-execution of variants of the failing case) does
+    /// not lose the failure. `replace_provisional` swaps in the shrunk case afterwards.
+    pub fn violation_provisional(&mut self, part: &str, f: &Failure, case: Value) -> bool {
+        let before = self.st.violations.len();
+        self.violation(part, f, case);
+        let filed = self.st.violations.len() > before;
+        if filed {
+            self.dump();
+        }
+        filed
+    }
+
+    pub fn replace_provisional(&mut self, part: &str, f: &Failure, case: Value) {
+        self.st.violations.pop();
+        self.violation(part, f, case);
+    }
+
     pub fn violation_count(&self) -> usize {
         self.st.violations.len()
     }
